@@ -39,6 +39,7 @@ STUBS = ["CH layer: hist_functions.get_bin_on_value_1d replaced by the linear-sc
 ASSUMPTIONS = [
     "edges and values are finite; ordering of finite floats/ints is the ordering of the reals",
     "K exact mode: the guess int(A*(float(P)/Q)) is the truncation of the exact real quotient",
+    "fp_witness: z3 (floating-point theory) produces doubles reaching the rounding corner of the search; they are run through the real function (a solver-generated differential test of the branch that only rounding reaches)",
     "K robust mode: the guess is ANY integer in [0, ind_max-ind_min]; that the float computation "
     "lands there is the chain L1a, L1b, L2, L3 (IEEE-754 round-to-nearest, no overflow in V-A, B-A, "
     "ints with |x| <= 2**53)",
@@ -65,6 +66,40 @@ def replay_bin(val, arr):
 def replay_bin_float(val, arr):
     return hf.get_bin_on_value_1d(float(Fraction(val)), [float(Fraction(x)) for x in arr]) \
         == ref_index(float(Fraction(val)), [float(Fraction(x)) for x in arr])
+
+
+def replay_float(val_hex, arr_hex):
+    """Real get_bin_on_value_1d on doubles (given as float.hex strings) == reference?"""
+    v = float.fromhex(val_hex)
+    a = [float.fromhex(x) for x in arr_hex]
+    return hf.get_bin_on_value_1d(v, a) == ref_index(v, a)
+
+
+FPW = [(3, 0), (4, 0), (4, 1), (5, 0), (5, 2), (6, 1), (6, 3), (8, 2)]
+
+
+def fp_witness(budget):
+    """Solver-produced doubles that drive the search into its rounding
+    corner (guess == ind_max although val < arr[ind_max]), replayed on the
+    real function against the reference."""
+    from verif import fp_lemmas as fl
+    n, cell = FPW[h.SHARD_I]
+    r, dt, w = fl.rounding_witness(n, cell, budget)
+    q = [dict(query="rounding corner n=%d cell=%d" % (n, cell), result=r, seconds=dt)]
+    if w is None:
+        return dict(status="UNKNOWN", paths=1, decisions=1, solver_checks=1, solver_time_s=dt,
+                    messages=[], queries=q, detail="no witness (%s)" % r)
+    val, arr = w
+    call = "replay_float(%r, %r)" % (val.hex(), [x.hex() for x in arr])
+    q[0]["witness"] = {"val": val, "arr": arr}
+    good = replay_float(val.hex(), [x.hex() for x in arr])
+    if good:
+        return dict(status="CONFIRMED", paths=1, confirmed_paths=1, decisions=1, solver_checks=1,
+                    solver_time_s=dt, messages=[], queries=q,
+                    detail="witness found in %.1fs; real function agrees with the reference on it" % dt)
+    return dict(status="REFUTED", paths=1, decisions=1, solver_checks=1, solver_time_s=dt, queries=q,
+                messages=[{"state": "POST_FAIL", "call": call,
+                           "message": "wrong bin on a rounding-corner witness n=%d cell=%d" % (n, cell)}])
 
 
 def _kernel(mode, budget):
@@ -342,6 +377,7 @@ CONDITIONS = [
     dict(fn="kernel_robust", custom=True, shards=(7, 11), budget=(100, 1500)),
     dict(fn="translator_validation", custom=True, budget=(100, 300)),
     dict(fn="fp_lemmas", custom=True, shards=(4, 4), budget=(110, 1500)),
+    dict(fn="fp_witness", custom=True, shards=(8, 8), budget=(60, 600)),
     dict(fn="check_fill_1d", budget=(80, 900),
          smoke=["check_fill_1d(0, 1, 2, 3, 4, [0, 1, 6, -1], [1, 2, 3, 4])",
                 "check_fill_1d(0, 1, 1, 1, 2, [1], [5])"]),
